@@ -340,3 +340,32 @@ pub mod rpc {
         .await
     }
 }
+
+/// Read-only view of a running `Network`'s connection pools and tables.
+pub struct NetworkView {
+    pub consensus_inbound: Vec<zksync_consensus_roles::validator::PublicKey>,
+    pub consensus_outbound: Vec<zksync_consensus_roles::validator::PublicKey>,
+    pub gossip_inbound: Vec<zksync_consensus_roles::node::PublicKey>,
+    pub gossip_outbound: Vec<zksync_consensus_roles::node::PublicKey>,
+    pub validator_addrs:
+        Vec<std::sync::Arc<zksync_consensus_roles::validator::Signed<zksync_consensus_roles::validator::NetAddress>>>,
+    pub fetch_queue: Vec<u64>,
+}
+
+pub fn view(net: &crate::Network) -> NetworkView {
+    let (ci, co) = match &net.consensus {
+        Some(c) => (
+            c.inbound.current().keys().cloned().collect(),
+            c.outbound.current().keys().cloned().collect(),
+        ),
+        None => (vec![], vec![]),
+    };
+    NetworkView {
+        consensus_inbound: ci,
+        consensus_outbound: co,
+        gossip_inbound: net.gossip.inbound.current().keys().cloned().collect(),
+        gossip_outbound: net.gossip.outbound.current().keys().cloned().collect(),
+        validator_addrs: net.gossip.validator_addrs.current().values().cloned().collect(),
+        fetch_queue: net.gossip.fetch_queue.current_blocks(),
+    }
+}
